@@ -48,6 +48,8 @@ def typeErr : Err := .raised "TypeError"
 /-- the `init` argument: what calling it returns -/
 inductive Init where
   | int | float | str | list | tuple | dict | odict | acc   -- `acc`: class Acc(list) with its own `__iadd__` / `update`
+  | set                                             -- `set`: nothing of the catalogue can be added to it (`set() += [1]` is a TypeError)
+  | notCallable                                     -- `init=5`, `init='LAZY'`: refused by the constructor
   | copyOf (v : Val)                                -- `lambda: type(OBJ)(OBJ)`: a NEW container with OBJ's content (an immediate: itself)
   | shared (v : Val)                                -- `lambda: OBJ`: returns a pre-existing object (does not allocate)
   deriving DecidableEq, Repr, Inhabited
@@ -58,6 +60,12 @@ inductive Op where
   | firstWins                  -- a user callable `(d, v) -> None` doing `d.setdefault` per item of `v`
   | append                     -- `lambda a, v: (a.append(v), a)[1]`: mutates the accumulator, returns it
   | cons                       -- `lambda a, v: [v] + a`: a new list every step
+  | extend                     -- `list.extend` (Merge(op='extend', init=list)): extends in place, returns None
+  | appendNone                 -- `list.append` (Merge(op='append', init=list)): appends in place, returns None
+  | dictUnion                  -- `lambda a, b: {**a, **b}`: a new dict every step
+  | addSeq                     -- `lambda a, v: a + list(v) if v is a list/tuple else raise UnregisteredTarget`
+  | pokeElem                   -- `lambda a, v: (v.append(0), a)[1]`: WRITES TO ITS ELEMENT (outside the laws)
+  | notCallable                -- `op=5`: refused by the constructor
   deriving DecidableEq, Repr, Inhabited
 
 /-- an accumulator *value*: an immediate, or the content of a container -/
@@ -120,6 +128,22 @@ def numAdd : Num → Num → Val
 
 def strChars (s : String) : List Val := s.toList.map (fun c => Val.str (String.singleton c))
 
+/-- a pseudo-item `!raise:C` in the item list of a generator: at this point the iterator raises an
+    exception of class `C` instead of yielding (`glom(t, Iter([T]))` over a `t` with a non-iterable
+    element raises UnregisteredTarget midway) -/
+def raiseMarker : Val → Option String
+  | .sent s =>
+    if "!raise:".toList.isPrefixOf s.toList then some (String.ofList (s.toList.drop 7)) else none
+  | _ => none
+
+/-- the class of the first exception an iterator over these items raises, if any -/
+def firstRaise : List Val → Option String
+  | [] => none
+  | v :: vs =>
+    match raiseMarker v with
+    | some c => some c
+    | none => firstRaise vs
+
 /-- `iter(v)` for the builtin layouts -/
 def rawIterBase (h : Heap) : Val → Option (List Val)
   | .str s => some (strChars s)
@@ -130,6 +154,10 @@ def rawIterBase (h : Heap) : Val → Option (List Val)
     | some (.set _ xs) => some xs
     | some (.dict _ es) => some (es.map (·.1))
     | _ => none
+  | .sent s =>
+    -- a raise-marker met where an iterable is expected (the outer iterator of a chain raises here):
+    -- it flows through the join and raises when the stream is consumed
+    if (raiseMarker (.sent s)).isSome then some [.sent s] else none
   | _ => none
 
 /-- harness classes with `def __iter__(self): return iter(self.names)` -/
@@ -146,7 +174,8 @@ def rawIter1 (h : Heap) : Val → Option (List Val)
         match attrOf as "names" with
         | some w => rawIterBase h w
         | none => none
-      else none
+      else if c == "GetItemSeq" then some []       -- no `__iter__`, a `__getitem__` that raises IndexError at 0:
+      else none                                    --   iter() falls back to the sequence protocol: nothing
     | _ => rawIterBase h (.ref a)
   | v => rawIterBase h v
 
@@ -177,7 +206,19 @@ inductive OpRes where
   | value (sv : SV)          -- returns a new value; no operand is touched
   | inplaceSelf (o : Obj)    -- the left operand's content becomes `o`; returns the left operand itself
   | inplaceNone (o : Obj)    -- the left operand's content becomes `o`; returns None
+  | writeOther (a : Nat) (o : Obj)   -- the object at address `a` — NOT the left operand — becomes `o`;
+                                     -- returns the left operand itself (an operator that writes to its element)
   deriving DecidableEq, Repr
+
+/-- consuming `iter(v)` to the end, as `list.__iadd__`, `dict.update`, unpacking do: not iterable is a
+    TypeError, an iterator that raises midway raises that -/
+def iterStrict (h : Heap) (v : Val) : Except Err (List Val) :=
+  match rawIter h v with
+  | none => .error typeErr
+  | some ys =>
+    match firstRaise ys with
+    | some c => .error (.raised c)
+    | none => .ok ys
 
 /-- `a += v` (`inplace`) / `a + v` -/
 def pyAdd (inplace : Bool) (h : Heap) (acc : SV) (v : Val) : Except Err OpRes :=
@@ -193,9 +234,9 @@ def pyAdd (inplace : Bool) (h : Heap) (acc : SV) (v : Val) : Except Err OpRes :=
   | .cell (.list cls xs) =>
     if inplace then
       if cls == "Acc" then .ok (.inplaceSelf (.list cls (xs ++ [v])))      -- Acc.__iadd__: append, return self
-      else match rawIter h v with                                           -- list.__iadd__: extend with any iterable
-        | some ys => .ok (.inplaceSelf (.list cls (xs ++ ys)))
-        | none => .error typeErr
+      else match iterStrict h v with                                        -- list.__iadd__: extend with any iterable
+        | .ok ys => .ok (.inplaceSelf (.list cls (xs ++ ys)))
+        | .error e => .error e
     else
       match v with                                                          -- list.__add__: right operand must be a list
       | .ref b =>
@@ -227,10 +268,10 @@ def dictSetDefault (es : List (Val × Val)) (k x : Val) : List (Val × Val) :=
 
 /-- one element of an iterable handed to `dict.update`: must unpack to a (hashable key, value) pair -/
 def pairOf (h : Heap) (item : Val) : Except Err (Val × Val) :=
-  match rawIter h item with
-  | none => .error typeErr
-  | some [k, x] => if k.hashable h then .ok (k, x) else .error typeErr
-  | some _ => .error (.raised "ValueError")
+  match iterStrict h item with
+  | .error e => .error e
+  | .ok [k, x] => if k.hashable h then .ok (k, x) else .error typeErr
+  | .ok _ => .error (.raised "ValueError")
 
 def pairsOf (h : Heap) : List Val → Except Err (List (Val × Val))
   | [] => .ok []
@@ -244,9 +285,9 @@ def pairsOf (h : Heap) : List Val → Except Err (List (Val × Val))
 
 /-- `dict.update(_, v)` for a `v` without `keys()`: an iterable of pairs -/
 def updateSeq (h : Heap) (v : Val) : Except Err (List (Val × Val)) :=
-  match rawIter h v with
-  | some items => pairsOf h items
-  | none => .error typeErr
+  match iterStrict h v with
+  | .ok items => pairsOf h items
+  | .error e => .error e
 
 /-- the `(key, value)` sequence `dict.update(_, v)` applies, in order -/
 def updatePairs (h : Heap) (v : Val) : Except Err (List (Val × Val)) :=
@@ -307,6 +348,45 @@ def pyOp (op : Op) (h : Heap) (acc : SV) (v : Val) : Except Err OpRes :=
     match acc with
     | .cell (.list _ xs) => .ok (.value (.cell (.list "list" (v :: xs))))
     | _ => .error typeErr
+  | .extend =>
+    match acc with
+    | .cell (.list c xs) =>
+      match iterStrict h v with
+      | .ok ys => .ok (.inplaceNone (.list c (xs ++ ys)))
+      | .error e => .error e
+    | _ => .error typeErr
+  | .appendNone =>
+    match acc with
+    | .cell (.list c xs) => .ok (.inplaceNone (.list c (xs ++ [v])))
+    | _ => .error typeErr
+  | .dictUnion =>
+    match acc with
+    | .cell (.dict _ es) =>
+      match v with
+      | .ref b =>
+        match h[b]? with
+        | some (.dict _ ps) => .ok (.value (.cell (.dict "dict" (applyPairs es ps))))
+        | _ => .error typeErr
+      | _ => .error typeErr
+    | _ => .error typeErr
+  | .addSeq =>
+    match v with
+    | .ref b =>
+      match h[b]? with
+      | some (.list _ ys) | some (.tuple "tuple" ys) =>
+        match acc with
+        | .cell (.list _ xs) => .ok (.value (.cell (.list "list" (xs ++ ys))))
+        | _ => .error typeErr
+      | _ => .error (.raised "UnregisteredTarget")
+    | _ => .error (.raised "UnregisteredTarget")
+  | .pokeElem =>
+    match v with
+    | .ref b =>
+      match h[b]? with
+      | some (.list c ys) => .ok (.writeOther b (.list c (ys ++ [.int 0])))
+      | _ => .error (.raised "AttributeError")
+    | _ => .error (.raised "AttributeError")
+  | .notCallable => .error typeErr
 
 /-! ### the heap side: objects with identity -/
 
@@ -342,6 +422,8 @@ def callInit (i : Init) : InitFn := fun h =>
   | .dict => materialise h (.cell (.dict "dict" []))
   | .odict => materialise h (.cell (.dict "OrderedDict" []))
   | .acc => materialise h (.cell (.list "Acc" []))
+  | .set => materialise h (.cell (.set "set" []))
+  | .notCallable => (.none, h)                       -- never reached: the constructor refuses it
   | .copyOf v =>
     match v with
     | .ref a =>
@@ -367,6 +449,14 @@ def opStep (f : OpFn) (h : Heap) (acc v : Val) : Except Err (Val × Heap) :=
       match acc with
       | .ref a => .ok (.none, h.set a o)
       | _ => .error typeErr
+    | .ok (.writeOther b o) => .ok (acc, h.set b o)
+
+/-- the loop variable `v` is drawn from the iterator before `op` is called: an iterator that raises at
+    this point (`raiseMarker`) raises out of the loop, `op` is not called -/
+def guardOp (f : OpFn) : OpFn := fun h sv v =>
+  match raiseMarker v with
+  | some c => .error (.raised c)
+  | none => f h sv v
 
 /-- `for v in iterator: ret = op(ret, v)` then `return ret` (Fold._fold) -/
 def foldLoop (f : OpFn) : List Val → Val → Heap → Except Err Val × Heap
@@ -428,13 +518,19 @@ def itemsAttrIter (h : Heap) : Val → Option (List Val)
     | _ => none
   | _ => none
 
+/-- `list(x)` INSIDE a handler drains `x`: a generator that raises midway makes the handler call raise -/
+def drainedIter (h : Heap) (v : Val) : Option (List Val) :=
+  match rawIter h v with
+  | some ys => if (firstRaise ys).isSome then none else some ys
+  | none => none
+
 /-- the `iterate` handlers of the harness (and `iter` itself): what calling one on a target
     yields, drained into a list; `none` = the call raised (any Exception) -/
 def runHandler (hn : String) (h : Heap) (v : Val) : Option (List Val) :=
   if hn == "iter" then rawIter h v
-  else if hn == "h:rev" then (rawIter h v).map List.reverse            -- lambda x: iter(list(x)[::-1])
-  else if hn == "h:tail" then (rawIter h v).map (List.drop 1)          -- lambda x: iter(list(x)[1:])
-  else if hn == "h:aslist" then rawIter h v                            -- lambda x: list(x)   (a list, not an iterator)
+  else if hn == "h:rev" then (drainedIter h v).map List.reverse        -- lambda x: iter(list(x)[::-1])
+  else if hn == "h:tail" then (drainedIter h v).map (List.drop 1)      -- lambda x: iter(list(x)[1:])
+  else if hn == "h:aslist" then drainedIter h v                        -- lambda x: list(x)   (a list, not an iterator)
   else if hn == "h:items" then itemsAttrIter h v                       -- lambda x: iter(x.items)
   else none                                                            -- h:raise, unknown names: the call raises
 
@@ -477,7 +573,8 @@ inductive InitArg where
   deriving DecidableEq, Repr, Inhabited
 
 inductive MergeOpArg where
-  | none | name (n : String) | iadd | firstWins
+  | none | name (n : String) | iadd | firstWins | dictUnion
+  | notCallable                        -- `op=5`: neither a method name nor callable
   deriving DecidableEq, Repr, Inhabited
 
 def mkFold (sub : List Val) (init : Init) (op : Op) : FoldSpec := ⟨.fold, sub, init, op, false⟩
@@ -493,21 +590,30 @@ def mkFlatten (sub : List Val) (init : InitArg) : FoldSpec :=
 /-- `getattr(type(x), name, None)` for the classes in play -/
 def methodOf (cls name : String) : Option Op :=
   if name == "update" && (cls == "dict" || cls == "OrderedDict" || cls == "Acc") then some (.update cls)
+  else if name == "extend" && (cls == "list" || cls == "Acc" || cls == "Bag" || cls == "SubBag") then some .extend
+  else if name == "append" && (cls == "list" || cls == "Acc" || cls == "Bag" || cls == "SubBag") then some .appendNone
   else none
 
 /-- `Merge.__init__`: a string `op` (default 'update') is looked up on `type(init())` —
     `init()` is called here once (the object is dropped); not callable ⇒ ValueError -/
 def mkMerge (sub : List Val) (init : Init) (op : MergeOpArg) (h : Heap) : Except Err FoldSpec × Heap :=
   let byName (n : String) : Except Err FoldSpec × Heap :=
-    let (t, h1) := callInit init h
-    match methodOf (t.clsName h1) n with
-    | some o => (.ok ⟨.merge, sub, init, o, false⟩, h1)
-    | none => (.error (.raised "ValueError"), h1)
+    if init == .notCallable then (.error typeErr, h)        -- `test_init = init()`: calling a non-callable
+    else
+      let (t, h1) := callInit init h
+      match methodOf (t.clsName h1) n with
+      | some o => (.ok ⟨.merge, sub, init, o, false⟩, h1)
+      | none => (.error (.raised "ValueError"), h1)
+  -- a callable op goes straight to Fold.__init__, which refuses a non-callable init
+  let direct (o : Op) : Except Err FoldSpec × Heap :=
+    if init == .notCallable then (.error typeErr, h) else (.ok ⟨.merge, sub, init, o, false⟩, h)
   match op with
   | .none => byName "update"
   | .name n => byName n
-  | .iadd => (.ok ⟨.merge, sub, init, .iadd, false⟩, h)
-  | .firstWins => (.ok ⟨.merge, sub, init, .firstWins, false⟩, h)
+  | .iadd => direct .iadd
+  | .firstWins => direct .firstWins
+  | .dictUnion => direct .dictUnion
+  | .notCallable => (.error (.raised "ValueError"), h)
 
 /-! ### evaluation, given the handler table of the moment -/
 
@@ -522,15 +628,16 @@ def evalSub (h : Heap) : List Val → Val → Except Err Val
 /-- the three `_fold` bodies -/
 def runFold (s : FoldSpec) (items : List Val) (h : Heap) : Except Err Val × Heap :=
   match s.kind with
-  | .fold => foldWith (callInit s.init) (pyOp s.op) items h
+  | .fold => foldWith (callInit s.init) (guardOp (pyOp s.op)) items h
   | .flatten =>
     if s.lazy then
       let (c, h1) := materialise h (.cell (.tuple "chain" items))     -- itertools.chain.from_iterable(iterator)
       (.ok c, h1)
-    else foldWith (callInit s.init) (pyOp s.op) items h
-  | .merge => mergeWith (callInit s.init) (pyOp s.op) items h
+    else foldWith (callInit s.init) (guardOp (pyOp s.op)) items h
+  | .merge => mergeWith (callInit s.init) (guardOp (pyOp s.op)) items h
 
-/-- `except X` in Fold.glomit around `self._fold(target_iter(…))` -/
+/-- `except X` in Fold.glomit around `iterator = target_iter(…)` — and around nothing else: `_fold`
+    (init(), the loop, op) runs after the `try` statement -/
 def convertIterErr (env : Env) : IterErr → Err
   | .unregistered =>
     match regLookup env.foldCatch "UnregisteredTarget" with
@@ -561,6 +668,7 @@ def flattenFn (env : Env) (sub : List Val) (init : InitArg) (levels : Int) (h : 
     Except Err Val × Heap :=
   if levels == 0 then (.ok target, h)
   else if levels < 0 then (.error (.raised "ValueError"), h)
+  else if init == .init .notCallable then (.error typeErr, h)      -- `Flatten(init=init)` is built before glom() runs
   else
     match evalSub h sub target with
     | .error e => (.error e, h)
@@ -576,6 +684,12 @@ def mergeFn (env : Env) (sub : List Val) (init : Init) (op : MergeOpArg) (h : He
 
 /-! ### programs: one spec object, evaluated on a sequence of targets -/
 
+inductive OddCall where
+  | extraKw                            -- an unexpected keyword argument
+  | levelsNone                         -- `levels=None`
+  | levelsFloat (bits : String)        -- `levels=1.5`, `2.0`, `0.0`, `-1.5`
+  deriving DecidableEq, Repr, Inhabited
+
 inductive Prog where
   | fold (sub : List Val) (init : Init) (op : Op)
   | sum (sub : List Val) (init : Init)
@@ -584,7 +698,32 @@ inductive Prog where
   | merge (sub : List Val) (init : Init) (op : MergeOpArg)
   | flattenFn (sub : List Val) (init : InitArg) (levels : Int)
   | mergeFn (sub : List Val) (init : Init) (op : MergeOpArg)
+  /-- `flatten(t, levels=<not an int>)` / `flatten(t, foo=1)` / `merge(t, foo=1)`: calls decided on
+      their arguments alone -/
+  | oddCall (c : OddCall)
   deriving DecidableEq, Repr, Inhabited
+
+/-- what the constructor of a spec CLASS refuses (checked once, before any evaluation):
+    `Fold.__init__` wants a callable op (checked first) and a callable init -/
+def ctorErr : Prog → Option Err
+  | .fold _ i op => if op == .notCallable || i == .notCallable then some typeErr else none
+  | .sum _ i => if i == .notCallable then some typeErr else none
+  | .flatten _ (.init i) => if i == .notCallable then some typeErr else none
+  | _ => none
+
+/-- `flatten()` / `merge()` with arguments of the wrong kind: `if kwargs: raise TypeError` comes
+    first; then `levels == 0` / `levels < 0` / `(…,) * (levels - 1)` on whatever `levels` is -/
+def oddCall (c : OddCall) (h : Heap) (target : Val) : Except Err Val × Heap :=
+  match c with
+  | .extraKw => (.error typeErr, h)
+  | .levelsNone => (.error typeErr, h)                       -- `None < 0`
+  | .levelsFloat s =>
+    match floatOfHex s with
+    | none => (.error typeErr, h)
+    | some x =>
+      if x == 0 then (.ok target, h)                         -- `0.0 == 0`
+      else if x < 0 then (.error (.raised "ValueError"), h)
+      else (.error typeErr, h)                               -- `(Flatten(…),) * 0.5`
 
 /-- evaluate one already-built spec object on each target in turn (the SAME object every time) -/
 def evalAll (f : Heap → Val → Except Err Val × Heap) : List Val → Heap → List (Except Err Val) × Heap
@@ -607,6 +746,7 @@ def runProg (env : Env) (p : Prog) (targets : List Val) (h : Heap) : List (Excep
     | (.error e, h1) => (targets.map (fun _ => .error e), h1)     -- construction failed: nothing to evaluate
   | .flattenFn sub i l => evalAll (flattenFn env sub i l) targets h
   | .mergeFn sub i op => evalAll (mergeFn env sub i op) targets h
+  | .oddCall c => evalAll (oddCall c) targets h
 
 /-! ### the code that exists: `get_handler` with its memo, a history of evaluations and registrations -/
 
@@ -632,10 +772,19 @@ def pureLk (H : Hier) (r : Reg) (cls : String) : Except IterErr String :=
 /-- the environment of a call made while the registry's tables are `r`'s -/
 def envOf (H : Hier) (env : Env) (r : Reg) : Env := { env with lk := pureLk H r }
 
+/-- `get_handler` as it is since 8b51f6e: what the memo holds is fetched first, and a remembered
+    `False` raises UnregisteredTarget under `raise_exc=True` just as a fresh one does
+    (`ret = self._type_cache[cache_key]; if ret is False and raise_exc: raise …`).  The shared
+    registry model's `getHandler` returns the remembered `False`; this is the one statement added. -/
+def getHandler15 (H : Hier) (r : Reg) (op : String) (cls : String) (raiseExc : Bool) : Reg × C13.Answer :=
+  match C13.getHandler H r op cls raiseExc with
+  | (r', .ret none) => if raiseExc then (r', .unregistered) else (r', .ret none)
+  | x => x
+
 /-- `target_iter` against the registry: the lookup goes through (and writes) the memo.
     (`env.lk` is not consulted by the `…R` functions: the registry answers.) -/
 def targetIterR (H : Hier) (env : Env) (r : Reg) (h : Heap) (v : Val) : Except IterErr (List Val) × Reg :=
-  let (r', ans) := C13.getHandler H r "iterate" (v.clsName h) true
+  let (r', ans) := getHandler15 H r "iterate" (v.clsName h) true
   (applyHandler env (lkAnswer ans) h v, r')
 
 def glomitR (H : Hier) (env : Env) (s : FoldSpec) (r : Reg) (h : Heap) (target : Val) :
@@ -658,6 +807,7 @@ def flattenFnR (H : Hier) (env : Env) (sub : List Val) (init : InitArg) (levels 
     (target : Val) : (Except Err Val × Heap) × Reg :=
   if levels == 0 then ((.ok target, h), r)
   else if levels < 0 then ((.error (.raised "ValueError"), h), r)
+  else if init == .init .notCallable then ((.error typeErr, h), r)
   else
     match evalSub h sub target with
     | .error e => ((.error e, h), r)
@@ -676,17 +826,22 @@ inductive Event where
   /-- `register(cls, exact=exact, **kw)` on the registry the evaluations use
       (`kw`: e.g. `[("iterate", some "h:rev")]`; a handler `none` is `False`) -/
   | register (cls : String) (exact : Bool) (kw : List (String × Option String))
+  /-- `registry.get_handler('iterate', obj, raise_exc=False)` for an object of class `cls`: a lookup
+      that does not raise and REMEMBERS a `False` -/
+  | probe (cls : String)
   deriving DecidableEq, Repr, Inhabited
 
 def Event.targets : List Event → List Val
   | [] => []
   | .eval t :: es => t :: Event.targets es
   | .register .. :: es => Event.targets es
+  | .probe _ :: es => Event.targets es
 
 /-- the registry's tables after an event (an evaluation changes the memo only; see `evalEvents`) -/
 def regAfter (H : Hier) (r : Reg) : Event → Reg
   | .eval _ => r
   | .register c e kw => C13.register H r c e kw
+  | .probe _ => r
 
 /-- run a history with one already-built evaluator: results of the evaluations, final heap, final registry -/
 def evalEvents (H : Hier) (f : Reg → Heap → Val → (Except Err Val × Heap) × Reg) :
@@ -697,6 +852,7 @@ def evalEvents (H : Hier) (f : Reg → Heap → Val → (Except Err Val × Heap)
     let rest := evalEvents H f es out.2 out.1.2
     (out.1.1 :: rest.1, rest.2)
   | .register c e kw :: es, r, h => evalEvents H f es (C13.register H r c e kw) h
+  | .probe c :: es, r, h => evalEvents H f es (getHandler15 H r "iterate" c false).1 h
 
 /-- build the spec (once), then run the history against the registry `r` -/
 def runProgR (H : Hier) (env : Env) (p : Prog) (events : List Event) (r : Reg) (h : Heap) :
@@ -712,5 +868,13 @@ def runProgR (H : Hier) (env : Env) (p : Prog) (events : List Event) (r : Reg) (
     | (.error e, h1) => ((Event.targets events).map (fun _ => .error e), h1, r)
   | .flattenFn sub i l => evalEvents H (flattenFnR H env sub i l) events r h
   | .mergeFn sub i op => evalEvents H (mergeFnR H env sub i op) events r h
+  | .oddCall c => evalEvents H (fun r h t => (oddCall c h t, r)) events r h
+
+/-- the whole run: the constructor of a spec class is called first, once -/
+def runHistory (H : Hier) (env : Env) (p : Prog) (events : List Event) (r : Reg) (h : Heap) :
+    List (Except Err Val) × Heap × Reg :=
+  match ctorErr p with
+  | some e => ((Event.targets events).map (fun _ => .error e), h, r)   -- nothing is evaluated (nor registered: not observed)
+  | none => runProgR H env p events r h
 
 end Glom.C15
